@@ -1,5 +1,6 @@
 import PagexmlModel.Drv.Util
 import PagexmlModel.Drv.C03
+import PagexmlModel.Drv.C10
 open Lean
 
 namespace Pagexml.Drv
@@ -8,6 +9,7 @@ namespace Pagexml.Drv
 def dispatch (p op : String) (args : Json) : Dec Json :=
   match p with
   | "C03" => C03.handle op args
+  | "C10" => C10.handle op args
   | _ => .error s!"unknown property {p}"
 
 end Pagexml.Drv
